@@ -8,6 +8,7 @@ import (
 	"bytes"
 	"errors"
 	"fmt"
+	"math"
 	"math/rand"
 	"os"
 	"path"
@@ -796,6 +797,11 @@ func (m *mappedFile) newCounter(name string) (v *atomic.Uint64, m1 *mappedFile, 
 }
 
 func (m *mappedFile) extend(end uint32) (*mappedFile, error) {
+	if end > math.MaxUint32-pageSize+1 {
+		// Rounding up to the page size would wrap around: the allocation
+		// limit recorded in the file is corrupt.
+		return nil, errCorrupt
+	}
 	end = round(end, pageSize)
 	info, err := m.f.Stat()
 	if err != nil {
